@@ -205,7 +205,7 @@ public:
   // one deliberately constructed trigger of a repaired defect (about 1 run in 50)
   // Trigger 8 (overflowing exponent in a distribution parameter) is the known non-termination: never generated.
   static void genTrigger(Rng& rng, Plan& p, long docIdx, Tier tier) {
-    static const std::vector<long> Q = {0, 1, 2, 3, 4, 5, 6, 7, 9};
+    static const std::vector<long> Q = {0, 1, 2, 3, 4, 5, 6, 7, 9, 10, 11};
     (void)tier;
     long which = rng.pick(Q); p.cfg["trigger"] = which + 1;
     long seed = static_cast<long>(rng.next() & 0x3fffffff);
@@ -247,6 +247,18 @@ public:
         pos = d.orig[0].find('=', pos) + 1;
         p.ops.push_back(w); Op f("f.set", docIdx, 1, 0, static_cast<long>(pos) + (which == 7 ? 0 : 1)); f.x = which == 7 ? '-' : 'e'; p.ops.push_back(f);
         p.ops.push_back(Op("r.dist", docIdx, NATURAL, 0, 0)); return;
+      }
+      case 10: case 11: {   // a short write removes the content of a Simple distribution's value list (10: between the brackets, 11: brackets included)
+        for (int tries = 0; tries < 20; ++tries, ++seed) {
+          Op w("w.dist", seed, 7 + 10 * rng.below(8) + 160 * 15, 6, 0); Doc d; if (!Exec::makeDoc(w, false, d)) continue;
+          size_t a = d.orig[0].find("values=("); if (a == std::string::npos) continue;
+          size_t b = d.orig[0].find(')', a); if (b == std::string::npos) continue;
+          size_t from = a + (which == 10 ? 8 : 7), len = (which == 10 ? b : b + 1) - from;
+          if (len < 1 || len > 48) continue;
+          p.ops.push_back(w); Op f("f.short", docIdx, 1, 0, static_cast<long>(from)); f.x = static_cast<double>(len - 1); p.ops.push_back(f);
+          p.ops.push_back(Op("r.dist", docIdx, NATURAL, 0, 0)); return;
+        }
+        return;
       }
       case 9: {       // a row of a row-named table overwritten with separators only (multi-byte corruption of one line)
         Op w("w.table", seed, 2 + 7 * 3 + 49 * (1 | 2) + 49 * 32 * 1, 0, 0); Doc d; if (!Exec::makeDoc(w, false, d)) return;
